@@ -206,6 +206,21 @@ def run(name, tests, tier, only=None):
         sh("git clean -fdq -- kiki kiki_e2e_test", cwd=REPO)
     return res
 
+# size thresholds (reached only by the scaled grammar families / large seeds)
+mut("shift_target_wraps_at_256", ["C17", "C01"], [(M2T, """            Action::Shift(dest),
+        )
+    }
+
+    fn add_original_reduction_to_table(""", """            Action::Shift(StateIndex(dest.0 % 256)),
+        )
+    }
+
+    fn add_original_reduction_to_table(""")], "shift targets stored modulo 256 (a u8 state index): needs an automaton with > 256 states")
+mut("terminal_column_wraps_at_64", ["C17", "C01", "C07"], [("kiki/src/data/table.rs", """                .position(|t| t == terminal)
+                .expect("Terminal not found in table"),""", """                .position(|t| t == terminal)
+                .map(|i| i % 64)
+                .expect("Terminal not found in table"),""")], "ACTION columns computed modulo 64: needs > 64 terminals")
+
 def main():
     a = sys.argv[1:]
     if not a or a[0] == "list":
